@@ -101,7 +101,7 @@ theorem foldl_max_eq (l : List Nat) (b : Nat) (hb : b ∈ l) (hle : ∀ x ∈ l,
 /-! ### one column -/
 
 /-- a record whose bases are all letters, and that fits the reference -/
-structure WFRec (rec : SamRec) (L : Nat) : Prop where
+structure WFSamRec (rec : SamRec) (L : Nat) : Prop where
   hq : qSpan samNoIns rec.cigar ≤ rec.seq.length
   hr : rec.pos + refSpan samNoIns rec.cigar ≤ L
   letters : ∀ b ∈ rec.seq, isLetter b = true
@@ -111,7 +111,7 @@ def baseOf (c : Cov) : Option Nat := match c with | .base b => some b | .del => 
 /-- the bytes the records of a block put in column i -/
 def siteOf (block : List SamRec) (i : Nat) : List Nat := block.map fun r => covByte (covAt r i)
 
-theorem covAt_base_letter (r : SamRec) (L : Nat) (h : WFRec r L) (i b : Nat) (hc : covAt r i = some (.base b)) : isLetter b = true := by
+theorem covAt_base_letter (r : SamRec) (L : Nat) (h : WFSamRec r L) (i b : Nat) (hc : covAt r i = some (.base b)) : isLetter b = true := by
   unfold covAt at hc
   simp only [Option.map_eq_some_iff] at hc
   obtain ⟨e, hf, he2⟩ := hc
@@ -120,7 +120,7 @@ theorem covAt_base_letter (r : SamRec) (L : Nat) (h : WFRec r L) (i b : Nat) (hc
 theorem dash_not_letter : isLetter dash = false := by decide
 theorem star_not_letter : isLetter star = false := by decide
 
-theorem site_letters (L : Nat) : ∀ (block : List SamRec), (∀ r ∈ block, WFRec r L) → ∀ (i : Nat),
+theorem site_letters (L : Nat) : ∀ (block : List SamRec), (∀ r ∈ block, WFSamRec r L) → ∀ (i : Nat),
     (siteOf block i).filter isLetter = (block.filterMap fun r => covAt r i).filterMap baseOf := by
   intro block
   induction block with
@@ -168,7 +168,7 @@ theorem flatCol_eq (block : List SamRec) (i : Nat) :
 
 /-- **C01.flatten_column** — one column of a query's records: a base beats a deletion beats no coverage,
 two different bases give 'N' -/
-theorem flatten_column (block : List SamRec) (L : Nat) (hne : block ≠ []) (hwf : ∀ r ∈ block, WFRec r L) (i : Nat) :
+theorem flatten_column (block : List SamRec) (L : Nat) (hne : block ≠ []) (hwf : ∀ r ∈ block, WFSamRec r L) (i : Nat) :
     flattenSite (siteOf block i) = colByte (flatCol block i) := by
   have hlet := site_letters L block hwf i
   rw [flatCol_eq]
@@ -254,7 +254,7 @@ open Gofasta Model Spec Gofasta.Props.C01
 
 /-! ### the whole row of a query -/
 
-theorem colAt_walks (block : List SamRec) (L : Nat) (hwf : ∀ r ∈ block, WFRec r L) (j : Nat) (hj : j < L) :
+theorem colAt_walks (block : List SamRec) (L : Nat) (hwf : ∀ r ∈ block, WFSamRec r L) (j : Nat) (hj : j < L) :
     colAt (block.map fun r => walkNoIns r L) j = siteOf block j := by
   unfold colAt siteOf
   rw [List.map_map]
@@ -265,13 +265,13 @@ theorem colAt_walks (block : List SamRec) (L : Nat) (hwf : ∀ r ∈ block, WFRe
   rw [walk_row r L h.hq h.hr, getD_map_range _ _ _ _ hj]
 
 /-- **C01.flatten_rows** — the flattened row of a query's records, with '*' where nothing covers -/
-theorem seqFromBlock_starRow (block : List SamRec) (L : Nat) (hne : block ≠ []) (hwf : ∀ r ∈ block, WFRec r L) :
+theorem seqFromBlock_starRow (block : List SamRec) (L : Nat) (hne : block ≠ []) (hwf : ∀ r ∈ block, WFSamRec r L) :
     seqFromBlock block L = starRow block L := by
   have hgen : flattenRows (block.map fun r => walkNoIns r L) = starRow block L := by
     cases hb : block with
     | nil => exact absurd hb hne
     | cons r0 t =>
-      have hwf' : ∀ r ∈ r0 :: t, WFRec r L := by rw [← hb]; exact hwf
+      have hwf' : ∀ r ∈ r0 :: t, WFSamRec r L := by rw [← hb]; exact hwf
       have h0 := hwf' r0 (List.mem_cons_self)
       simp only [flattenRows, List.map_cons]
       rw [walk_length r0 L h0.hq h0.hr]
@@ -294,7 +294,7 @@ theorem seqFromBlock_starRow (block : List SamRec) (L : Nat) (hne : block ≠ []
     exact covByte_eq_colByte r i
   · exact hgen
 
-theorem flatCol_ne_star (block : List SamRec) (L : Nat) (hwf : ∀ r ∈ block, WFRec r L) (i b : Nat)
+theorem flatCol_ne_star (block : List SamRec) (L : Nat) (hwf : ∀ r ∈ block, WFSamRec r L) (i b : Nat)
     (h : flatCol block i = some b) : b ≠ star := by
   rw [flatCol_eq] at h
   split at h
@@ -344,7 +344,7 @@ theorem window_eq (row : List Nat) (rowP : List Nat) (pad trim : Bool) (s e : Na
 /-- **C01.query_row** — every query, with any number of records: the sequence written is the specification's
 row (per column: the aligned base, '-' where deleted, 'N' on conflict; uncovered positions by the flank rule or
 'N' under --pad), restricted to the requested window -/
-theorem query_row (block : List SamRec) (L : Nat) (hne : block ≠ []) (hwf : ∀ r ∈ block, WFRec r L)
+theorem query_row (block : List SamRec) (L : Nat) (hne : block ≠ []) (hwf : ∀ r ∈ block, WFSamRec r L)
     (pad trim : Bool) (s e : Nat) (hs : 1 ≤ s) :
     fastaRecordSeq (seqFromBlock block L) trim pad s e = specWindow (specTomaRow block L pad) pad trim s e := by
   have hstar := flatCol_ne_star block L hwf
@@ -403,7 +403,7 @@ theorem groupRecs_mem : ∀ (recs : List SamRec), ∀ g ∈ groupRecs recs, ∀ 
 with the specification's row -/
 theorem toMultiAlign_spec (L : Nat) (o : TomaOpts) (recs : List SamRec) (s e : Nat) (trim : Bool)
     (hargs : checkArgs L o.start o.stop = some (s, e, trim)) (hs : 1 ≤ s)
-    (hwf : ∀ r ∈ recs, isSkipped r = false → WFRec r L) :
+    (hwf : ∀ r ∈ recs, isSkipped r = false → WFSamRec r L) :
     toMultiAlign L o recs = some (String.join ((samBlocks recs).map fun b =>
       tomaRecordText o.wrap (b.headD default).name (specWindow (specTomaRow b L o.pad) o.pad trim s e))) := by
   unfold toMultiAlign
@@ -413,7 +413,7 @@ theorem toMultiAlign_spec (L : Nat) (o : TomaOpts) (recs : List SamRec) (s e : N
   apply List.map_congr_left
   intro b hb
   have hne := groupRecs_ne_nil _ b hb
-  have hbw : ∀ r ∈ b, WFRec r L := by
+  have hbw : ∀ r ∈ b, WFSamRec r L := by
     intro r hr
     have hm := groupRecs_mem _ b hb r hr
     have := List.mem_filter.1 hm
@@ -446,7 +446,7 @@ theorem checkArgs_start (L : Nat) (a b : Int) (s e : Nat) (trim : Bool) (h : che
 carry letters, and every accepted window, pad and wrap setting -/
 theorem toMultiAlign_total (L : Nat) (o : TomaOpts) (recs : List SamRec) (s e : Nat) (trim : Bool)
     (hargs : checkArgs L o.start o.stop = some (s, e, trim))
-    (hwf : ∀ r ∈ recs, isSkipped r = false → WFRec r L) :
+    (hwf : ∀ r ∈ recs, isSkipped r = false → WFSamRec r L) :
     toMultiAlign L o recs = some (String.join ((samBlocks recs).map fun b =>
       tomaRecordText o.wrap (b.headD default).name (specWindow (specTomaRow b L o.pad) o.pad trim s e))) :=
   toMultiAlign_spec L o recs s e trim hargs (checkArgs_start L _ _ s e trim hargs).1 hwf
@@ -454,7 +454,7 @@ theorem toMultiAlign_total (L : Nat) (o : TomaOpts) (recs : List SamRec) (s e : 
 /-- non-vacuity: two overlapping records of one query, a conflict at one column, a gap between them -/
 def exA : SamRec := ⟨"q", 0, 1, [(0, 3), (2, 1)], [65, 67, 71]⟩
 def exB : SamRec := ⟨"q", 2048, 3, [(0, 2)], [84, 84]⟩
-example : WFRec exA 8 ∧ WFRec exB 8 := by
+example : WFSamRec exA 8 ∧ WFSamRec exB 8 := by
   refine ⟨⟨by decide, by decide, by decide⟩, ⟨by decide, by decide, by decide⟩⟩
 example : specTomaRow [exA, exB] 8 false = [45, 65, 67, 78, 84, 45, 45, 45] := by decide +kernel
 
